@@ -560,6 +560,11 @@ func extractXMLDataField(parsedFieldBytes *TagValue, buffer []byte, dataLen int)
 		return
 	}
 	endIndex += dataLen + 1
+	if dataLen < 0 || endIndex >= len(buffer) {
+		err = parseError{OrigError: "extractXMLDataField: data length exceeds message in " + string(buffer)}
+		remBytes = buffer
+		return
+	}
 
 	err = parsedFieldBytes.parse(buffer[:endIndex+1])
 	return buffer[(endIndex + 1):], err
